@@ -1074,10 +1074,11 @@ def rule_r4_depth(ctx: Ctx) -> None:
                 continue
             seen.add(f.qualname)
             owner = owner or f.cls
-            if not f.name.startswith("_") or f.name == "__init__":
+            cs = [g.funcs[c] for c in sorted(callers.get(f.qualname, ())) if c in g.funcs and not g.funcs[c].name.startswith("_unittest")]
+            if (not f.name.startswith("_") or f.name == "__init__") and (owner is not None or not cs):
+                # a public method of a type (or a public function nobody in the package calls): this is what grows
                 out.add("%s.%s" % (owner.name if owner is not None else f.module.name[len("pydsdl."):], f.name))
                 continue
-            cs = [g.funcs[c] for c in sorted(callers.get(f.qualname, ())) if c in g.funcs and not g.funcs[c].name.startswith("_unittest")]
             if not cs:
                 out.add("%s.%s" % (owner.name if owner is not None else f.module.name[len("pydsdl."):], f.name))
             for c in cs:
